@@ -276,7 +276,9 @@ fn certainly_invalid(ctx: &mut Ctx, rng: &mut crate::rng::Rng, text: &str) {
 fn run(ctx: &mut Ctx, _idx: u64) {
   let mut rng = ctx.rng.clone();
   let g = {
-    let mut gen = Gen::new(&mut rng, Profile::syntax());
+    let mut p = Profile::syntax();
+    p.text_pool = crate::gs::TEXT_POOL_ESC;
+    let mut gen = Gen::new(&mut rng, p);
     gen.schema()
   };
   let style = Style::random(&mut rng, true);
